@@ -81,6 +81,23 @@ def gen_buffers(rng, tier):
         b[8:16] = struct.pack('>Q', boff)
         b[16:20] = struct.pack('>I', blen)
         bufs.append(('backing', bytes(b)))
+    # backing file name at, across and just beyond the end of the buffer that is handed in
+    for cb in (9, 16):
+        for trunc in (None, 512, 1024, 4096):
+            b0 = base_header(cb=cb)
+            L = len(b0) if trunc is None else trunc
+            for boff in (L - 9, L - 4, L - 1, L, L + 1):
+                for blen in (1, 4, 8, 200, 1023):
+                    if boff < 120:
+                        continue
+                    b = bytearray(b0)
+                    if len(b) < L:
+                        b += bytes(L - len(b))
+                    b[8:16] = struct.pack('>Q', boff)
+                    b[16:20] = struct.pack('>I', blen)
+                    for i in range(max(120, boff - 2), min(len(b), boff + blen)):
+                        b[i] = 0x61
+                    bufs.append(('backing-edge', bytes(b[:L])))
     # two-field mutations
     for _ in range(60 if tier == 'quick' else 3000):
         b = base_header(cb=rng.choice([9, 12, 16, 21]), version=rng.choice([2, 3]))
